@@ -156,7 +156,7 @@ CHECKS["C04"] = {
             "accessor's expected outcome; all are replayed on the real Decoder (values, end positions, offsets of borrowed slices, error class on "
             "prefixes). Generated deep items with random head widths and framing are decoded through all 25 accessors and validated by TLC.",
     "design_ref": "DESIGN.md section 6, C04",
-    "note": "Also: array_iter / map_iter and their context-taking forms array_iter_with / map_iter_with drained with an any-item element type (count, elements seen by the context, exact end behind the break); Decoder::probe(): the accessor's own outcome and the probing decoder left where it was (C04!ProbeExpect). Trusted: TLC, the RFC 8949 / RFC 3629 transcriptions. Composite target types are covered by the C01 check (re-framing events).",
+    "note": "Also: array_iter / map_iter and their context-taking forms array_iter_with / map_iter_with drained with an any-item element type (count, elements seen by the context, exact end behind the break); Decoder::probe(): the accessor's own outcome and the probing decoder left where it was (C04!ProbeExpect). Trusted: TLC, the RFC 8949 / RFC 3629 transcriptions. The ~110 target types: re-framed encodings of their values, the encoding of every value decoded as every other type (error or the same data item; Trace_Typed conjunct cross, Exact excludes sets, maps, f64, durations, ranges, Tag), strict prefixes decoded as the type (end-of-input class).",
     "technique": "TLA+ spec of the accessors as total outcome functions cross-checked against a data-model decoder + TLC + replay + trace validation",
     "engine": "tlc+vh",
 }
